@@ -35,6 +35,7 @@ func main() {
 	hooks := flag.String("hooks", "/verif/hooks", "hook files root")
 	out := flag.String("out", "/verif/build/overlay", "output directory")
 	flag.StringVar(&simDir, "sim", simDir, "harness module directory")
+	flag.StringVar(&modFile, "modfile", "", "go.mod of the harness module (used with -modfile)")
 	flag.Parse()
 
 	if err := run(*repo, *hooks, *out); err != nil {
@@ -44,6 +45,7 @@ func main() {
 }
 
 var simDir = "/verif/sim"
+var modFile = ""
 
 func run(repo, hooks, out string) error {
 	if err := os.RemoveAll(out); err != nil {
@@ -71,6 +73,9 @@ func run(repo, hooks, out string) error {
 	// module cache cannot be overlaid)
 	cfgExtra := *cfg
 	cfgExtra.Dir = simDir
+	if modFile != "" {
+		cfgExtra.Env = append(os.Environ(), "GOFLAGS=-mod=mod -modfile="+modFile)
+	}
 	extra, err := packages.Load(&cfgExtra, "github.com/shutter-network/shutter/shlib/puredkg")
 	if err != nil {
 		return err
